@@ -4,6 +4,7 @@ package harness
 // fake client evaluates only part of a query, an interpreter of the generated query text.
 
 import (
+	"context"
 	"fmt"
 	"sort"
 	"strings"
@@ -231,6 +232,41 @@ func (c *vCase) search(st *vStep, f vFilter, want []string) {
 	if c.be.kind == "cosmosdb" && !c.stuck {
 		c.cosmosQuery(st, f, sf, want)
 	}
+	c.abandoned("Search", arg, func(ctx context.Context) (chan storage.Stream[storage.ListResult], error) {
+		return c.be.v.Search(ctx, sf)
+	})
+}
+
+// abandoned: a caller that cancels its context before it has read the stream. Whatever the stream still delivers
+// (results, an error entry), it must be closed eventually. Tried for every 7th stream operation of a replay process.
+func (c *vCase) abandoned(what, arg string, call func(ctx context.Context) (chan storage.Stream[storage.ListResult], error)) {
+	c.run.stats["abandon_turn"]++
+	if c.run.stats["abandon_turn"]%7 != 0 || c.stuck || c.gaveUp(what+" (abandoned)") {
+		return
+	}
+	ctx, cancel := context.WithCancel(vCtx)
+	var ch chan storage.Stream[storage.ListResult]
+	var err error
+	decided := c.guarded(func() { ch, err = call(ctx) })
+	cancel()
+	if !decided || err != nil || ch == nil {
+		return
+	}
+	c.count("streams_abandoned")
+	tm := time.NewTimer(2 * time.Second)
+	defer tm.Stop()
+	for {
+		select {
+		case _, ok := <-ch:
+			if !ok {
+				return
+			}
+		case <-tm.C:
+			c.bad("C15", what+": the result stream is never closed after the caller's context was cancelled", arg)
+			c.count("never_closed_" + c.be.kind + "_" + what + " (abandoned)")
+			return
+		}
+	}
 }
 
 func vFilterShape(f vFilter) string {
@@ -260,6 +296,9 @@ func (c *vCase) list(st *vStep, n int, want []string) {
 	c.count("lists")
 	arg := fmt.Sprintf("limit %d", n)
 	got, ok := c.drain("List", arg, ch, err)
+	if c.be.kind == "sqlite" || n <= 0 {
+		c.abandoned("List", arg, func(ctx context.Context) (chan storage.Stream[storage.ListResult], error) { return c.be.v.List(ctx, n) })
+	}
 	if !ok {
 		return
 	}
